@@ -68,7 +68,7 @@ def plan(tier):
     if tier == "thorough":
         return {"shards": 1, "params": {"max_candidates": 1200, "cap": 300000000, "measure_budget_s": 1500, "prescreen_budget_s": 600,
                                         "budget_s": 3000, "reach": False, "workers": 16}, "timeout_s": 4200}
-    return {"shards": 1, "params": {"max_candidates": 64, "cap": 100000000, "measure_budget_s": 300, "prescreen_budget_s": 200,
+    return {"shards": 1, "params": {"max_candidates": 48, "cap": 30000000, "measure_budget_s": 300, "prescreen_budget_s": 200,
                                     "budget_s": 800, "reach": False, "workers": 16}, "timeout_s": 1500}
 
 
